@@ -16,8 +16,8 @@ build() { # build <out> <tags> [extra go build args...]
 }
 LOG="build/build-$ID.log"
 # optional per-check pre-step (extra build variants); it may define functions/vars and must not exit on success
-if [ -f "scripts/pre-$ID.sh" ]; then . "scripts/pre-$ID.sh" >"build/pre-$ID.log" 2>&1 || { echo "PRE-STEP-FAILED property=$ID (see build/pre-$ID.log)"; exit 2; }; fi
+if [ -f "scripts/pre-$ID.sh" ]; then . "scripts/pre-$ID.sh" >"build/pre-$ID.log" 2>&1 || { echo "PRE-STEP-FAILED property=$ID (see build/pre-$ID.log)"; exit 3; }; fi
 if ! build vcheck verif >"$LOG" 2>&1; then
-  echo "BUILD-FAILED property=$ID (see $LOG)"; cat "$LOG"; exit 2
+  echo "BUILD-FAILED property=$ID (see $LOG)"; cat "$LOG"; exit 3
 fi
 exec ./build/vcheck "$ID" "$TIER"
